@@ -172,6 +172,14 @@ theorem C09_lit_kind (k : PyKind) (hk : k ≠ .tuple) (h : H_infLiteral k) : typ
   · exact absurd h (by decide)
   · cases k <;> first | exact absurd rfl h | exact absurd rfl hk | decide
 
+/-- a value INSIDE a list / Row / dict, or used as the Python operand of a Column operator, does not pass
+    through `functions.lit` but through `Column._lit`: that path, too, emits a literal of the value's own
+    type (infinity excepted: H_infLiteral).  A special case that lives in `lit` only — e.g. the NaN cast —
+    breaks this. -/
+theorem C09_nested_lit_kind (k : PyKind) (hk : k ≠ .tuple) (hinf : k ≠ .floatInf) :
+    typedRight k (columnLit k) = true := by
+  cases k <;> first | exact absurd rfl hk | exact absurd rfl hinf | decide
+
 /-- why H_infLiteral is a hypothesis: `lit(float('inf'))` is the *string* 'inf' -/
 theorem C09_cex_infLiteral (h : litInfIsString = true) : litOf .floatInf = .string ∧ typedRight .floatInf (litOf .floatInf) = false := by
   constructor <;> simp [litOf, h] <;> decide
